@@ -177,11 +177,17 @@ class Run:
 
     # ---------- finishing
     def known(self):
-        try:
-            kf = json.load(open(os.path.join(VERIF, "known_findings.json")))
-        except FileNotFoundError:
-            return {}
-        return [e for e in kf.get("findings", []) if e.get("property") == self.prop and e.get("status") == "open"]
+        """open findings for this property: known_findings.json plus fragments known_findings.d/*.json"""
+        import glob
+        files = [os.path.join(VERIF, "known_findings.json")] + sorted(glob.glob(os.path.join(VERIF, "known_findings.d", "*.json")))
+        out = []
+        for fn in files:
+            try:
+                kf = json.load(open(fn))
+            except FileNotFoundError:
+                continue
+            out += [e for e in kf.get("findings", []) if e.get("property") == self.prop and e.get("status") == "open"]
+        return out
 
     @staticmethod
     def match_known(known, key):
